@@ -1,7 +1,7 @@
 /-
 C10 (source tie) — the hand-written model of `CurrentObjects::verify_delta_applies`
 (`KM.Pubd.verifyDelta`, Pubd/Content.lean) equals the definition that the translator `pure_fns`
-regenerates from `/repo/src/server/pubd/rrdp.rs` on every run (`Generated/PureFns.lean`,
+regenerates from `/repo/src/server/pubd/rrdp.rs` on every run (`Generated/PureFnsC10.lean`,
 `KM.Gen.CurrentObjects.verify_delta_applies` with its three loops `.loop`, `.loop2`, `.loop3`).
 
 `publish_iff`, `publish_atomic`, `isolation` (Props/C10.lean) are about `verifyDelta`: a request is
@@ -19,7 +19,7 @@ under the canonical key; `self.contains(x.hash, &x.uri)` ↦ "the object under t
 that hash" (`CurrentObjects::contains`, rrdp.rs:1379-1384); the three lists ↦ the publishes, updates
 and withdraws of the request in protocol order (`Delta.ordered`).
 -/
-import KrillModel.Generated.PureFns
+import KrillModel.Generated.PureFnsC10
 import KrillModel.Pubd.Content
 namespace KM.Props.C10Src
 open KM.Pubd
